@@ -1,5 +1,7 @@
 import VelaVerif.Lemmas.Constraints
 import VelaVerif.Lemmas.ConstraintsExamples
+import VelaVerif.Lemmas.UnchangedOnCpu
+import VelaVerif.Lemmas.Placement
 /-!
 # C16 — operators within the documented constraints are accelerated, others stay on the CPU
 
@@ -116,6 +118,153 @@ example : isOperatorSupported badConvBatch2 = .cpu n!"constraint_batch_size" := 
 example : isOperatorSupported badMaxPoolStride4 = .cpu n!"constraint_stride_range" := by decide +kernel
 example : isOperatorSemanticValid badAddNoQuant = .cpu n!"constraint_tens_quant_none_check" := by decide +kernel
 example : isOperatorSupported badConvBias41 = .cpu n!"constraint_bias_40bit" := by decide +kernel
+
+/-- Witness for repair C13-27 (`constraint_bias_40bit`): the criterion the unrepaired code used, `len(bin(v)[2:]) <= 40`
+    (`Sup.binLen`), accepts 2^39 - which is outside the signed 40-bit range `encode_bias` asserts - and rejects -2^39,
+    which is inside it. The model (`Sup.bias_40bit`) uses the signed range `Sup.fitsSigned`. -/
+theorem bias_digit_count_criterion_witness :
+    Sup.binLen (2 ^ 39) ≤ 40 ∧ Sup.fitsSigned 40 (2 ^ 39) = false ∧
+    40 < Sup.binLen (-(2 ^ 39)) ∧ Sup.fitsSigned 40 (-(2 ^ 39)) = true := by decide +kernel
+
+
+/-! ## Pipeline level: every source operator is accounted for exactly once, where the report says
+
+`Spec/Placement.lean` computes, from the source file and the output file as the plain flatbuffer walk sees them, the
+fate of every source operator (C11's counting: `matchTable`, `absorbs`, `foldable`, `reach`) and judges it against the
+documented placement; `check_C16.py` applies it to every operator of every compiled network.  The theorems say what an
+accepted judgement means.  (That the compiler always produces accepted outputs is observed, not proved.) -/
+
+open VelaVerif.Preserve VelaVerif.Placement in
+/-- **accounted_exactly_once.** `accounted` holds exactly when the source operator is in one place:
+    kept once on the CPU and in no Ethos-U slice, or in an Ethos-U slice and not kept, or in neither *and* a
+    compile-time constant or dead code. -/
+theorem accounted_exactly_once (src : PGraph) (table : List (Nat × Nat)) (abs : List Absorb) (j : Nat) :
+    (fate src table abs j).accounted = true ↔
+      (matchCount table j = 1 ∧ isAbsorbed abs j = false) ∨
+      (matchCount table j = 0 ∧ isAbsorbed abs j = true) ∨
+      (matchCount table j = 0 ∧ isAbsorbed abs j = false ∧
+        ((foldable src).contains j = true ∨ (reach src).contains j = false)) := by
+  unfold fate
+  simp only
+  split
+  · rename_i h
+    simp only [Fate.accounted]
+    constructor
+    · intro h'; cases h'
+    · rintro (⟨h', _⟩ | ⟨h', _⟩ | ⟨h', _⟩) <;> omega
+  · split
+    · rename_i h1
+      have h1' : matchCount table j = 1 := by simpa using h1
+      cases ha : isAbsorbed abs j <;> simp [h1', Fate.accounted]
+    · rename_i h0 h1
+      have h1' : matchCount table j ≠ 1 := by simpa using h1
+      have hz : matchCount table j = 0 := by omega
+      cases ha : isAbsorbed abs j <;> cases hf : (foldable src).contains j <;> cases hr : (reach src).contains j <;>
+        simp [hz, Fate.accounted]
+
+open VelaVerif.Preserve VelaVerif.Placement in
+/-- **placement_judged_sound.** If position `j` of the judgement list is `true`, source operator `j` is accounted for
+    exactly once and where the report says: documented `npu` ⇒ no operator of the output file that is not an
+    Ethos-U operator carries its result names (and it lies in an Ethos-U slice, or is a compile-time constant, or is
+    dead code); documented `cpu` / not listed ⇒ exactly one such operator does and no Ethos-U slice contains it (or it is
+    dead code that disappeared). -/
+theorem placement_judged_sound (src out : PGraph) (preds : List String) (j : Nat) (hj : j < src.ops.length)
+    (h : (judgeAll preds (fates src out))[j]? = some true) :
+    let m := matchCount (matchTable src out) j
+    let a := isAbsorbed (absorbs src out) j
+    ((m = 1 ∧ a = false) ∨ (m = 0 ∧ a = true) ∨
+      (m = 0 ∧ a = false ∧ ((foldable src).contains j = true ∨ (reach src).contains j = false))) ∧
+    (preds.getD j "-" = "npu" → m = 0) ∧
+    ((preds.getD j "-" = "cpu" ∨ preds.getD j "-" = "silent") →
+      (m = 1 ∧ a = false) ∨ (m = 0 ∧ a = false ∧ (reach src).contains j = false)) := by
+  intro m a
+  rw [judgeAll_getElem? preds _ j _ (fates_getElem? src out j hj)] at h
+  have hjd := judge_sound _ _ (Option.some.inj h)
+  have hacc := (accounted_exactly_once src (matchTable src out) (absorbs src out) j).mp hjd.1
+  refine ⟨hacc, ?_, ?_⟩
+  · intro hp
+    have hne := hjd.2.1 hp
+    rcases hacc with ⟨h1, h2⟩ | ⟨h1, _⟩ | ⟨h1, _⟩
+    · exact absurd ((fate_cpu_iff _ _ _ _).mpr ⟨h1, h2⟩) hne
+    · exact h1
+    · exact h1
+  · intro hp
+    rcases hjd.2.2 hp with hc | hd
+    · exact Or.inl ((fate_cpu_iff _ _ _ _).mp hc)
+    · right
+      -- dead: unfold
+      unfold fate at hd
+      simp only at hd
+      repeat (split at hd <;> try cases hd)
+      rename_i h0 h1 h2 h3 h4
+      have h1' : matchCount (matchTable src out) j ≠ 1 := by simpa using h1
+      refine ⟨by omega, by simpa using h2, by simpa using h4⟩
+
+open VelaVerif.Preserve VelaVerif.Placement in
+/-- **cpu_resident_verbatim.** When the structural scan reports nothing, every pair of the match table is a
+    CPU-resident operator of the output file together with *the* source operator producing tensors of the same names,
+    and the two are equal in builtin code, custom code, version, option fields, custom options, operand wiring
+    (name, shape, type, quantisation, constant data of every operand) and results (`opProblems = []`). -/
+theorem cpu_resident_verbatim (src out : PGraph) (h : matchProblems src out = []) (k j : Nat)
+    (hm : (k, j) ∈ matchTable src out) :
+    ∃ sop oop, src.ops[j]? = some sop ∧ out.ops[k]? = some oop ∧ isEthosU oop = false ∧
+      outKey src sop = outKey out oop ∧ opProblems src out k sop oop = [] ∧
+      ∀ j' sop', src.ops[j']? = some sop' → outKey src sop' = outKey out oop → j' = j := by
+  unfold matchTable at hm
+  simp only [List.mem_filterMap, Prod.exists] at hm
+  obtain ⟨oop, k', hmem, hv⟩ := hm
+  have hk : out.ops[k']? = some oop := List.mem_zipIdx_iff_getElem?.mp hmem
+  cases he : isEthosU oop with
+  | true => simp [he] at hv
+  | false =>
+    simp only [he, Bool.false_eq_true, if_false, Option.map_eq_some_iff] at hv
+    obtain ⟨j0, hmo, hpair⟩ := hv
+    have hkk : k' = k := (Prod.mk.inj hpair).1
+    have hjj : j0 = j := (Prod.mk.inj hpair).2
+    subst hkk; subst hjj
+    unfold matchOf at hmo
+    split at hmo
+    · rename_i j1 hc
+      have hj1 : j1 = j0 := Option.some.inj hmo
+      subst hj1
+      have hmemc : j1 ∈ candidates src out oop := by rw [hc]; exact List.mem_singleton.mpr rfl
+      obtain ⟨sop, hs, hkey⟩ := (mem_candidates src out oop j1).mp hmemc
+      -- the problems of this output operator are empty
+      unfold matchProblems at h
+      rw [List.append_eq_nil_iff, List.flatMap_eq_nil_iff] at h
+      have hp := h.1 (oop, k') hmem
+      simp only [he, Bool.false_eq_true, if_false, hc, hs] at hp
+      refine ⟨sop, oop, hs, hk, he, hkey, hp, ?_⟩
+      intro j' sop' hs' hk'
+      have : j' ∈ candidates src out oop := (mem_candidates src out oop j').mpr ⟨sop', hs', hk'⟩
+      rw [hc] at this
+      exact List.mem_singleton.mp this
+    · cases hmo
+
+open VelaVerif.Preserve VelaVerif.Placement in
+/-- a vanished operator (nowhere in the output although an output depends on it) is rejected whatever the report
+    predicts; so is one that is both kept and absorbed, or kept twice -/
+theorem unaccounted_rejected (pred : String) (f : Fate) (h : f = .lost ∨ f = .both ∨ f = .twice) : judge pred f = false := by
+  rcases h with rfl | rfl | rfl <;> simp [judge, Fate.accounted]
+
+/-! non-vacuity on the witness of seeded change round 3 m2 (CONV_2D stride 4 -> TANH): the output of the unchanged
+    compiler is accepted with fates [cpu, npu]; the seeded output ("fused": CONV_2D writes z, TANH gone) is rejected on
+    both operators and by the structural scan; a wrong documented placement is rejected on the clean output too -/
+open VelaVerif.Preserve VelaVerif.Placement in
+example : (report demoSrc demoOut).pre = [] ∧ (report demoSrc demoOut).problems = [] ∧
+    (report demoSrc demoOut).fates = [.cpu, .npu] ∧
+    judgeAll ["cpu", "npu"] (report demoSrc demoOut).fates = [true, true] ∧
+    judgeAll ["npu", "npu"] (report demoSrc demoOut).fates = [false, true] ∧
+    judgeAll ["cpu", "cpu"] (report demoSrc demoOut).fates = [true, false] := by decide +kernel
+open VelaVerif.Preserve VelaVerif.Placement in
+example : (report demoSrc demoOutFused).fates = [.lost, .cpu] ∧
+    judgeAll ["cpu", "npu"] (report demoSrc demoOutFused).fates = [false, false] ∧
+    ((report demoSrc demoOutFused).problems.map (·.kind)).contains "operator-lost" = true ∧
+    ((report demoSrc demoOutFused).problems.map (·.kind)).contains "builtin-code" = true := by decide +kernel
+open VelaVerif.Preserve VelaVerif.Placement in
+example : (report demoSrc { demoOut with ops := demoOut.ops ++ demoOut.ops.take 1 }).fates = [.twice, .npu] := by decide +kernel
+open VelaVerif.Preserve VelaVerif.Placement in
+example : (judgeAll ["cpu", "npu"] (fates demoSrc demoOut))[1]? = some true := by decide +kernel
 
 
 end VelaVerif.Props.C16
